@@ -21,9 +21,9 @@ RECURSIVE Streams(_)
 Streams(n) == IF n = 0 THEN {<<>>} ELSE LET r == Streams(n - 1) IN r \cup { Append(s, d) : s \in { x \in r : Len(x) = n - 1 }, d \in DocKinds }
 \* -n mode: expressions over typed arguments
 X == Var("x")
-ArgVals == { <<"int", I(5)>>, <<"int", I(-1)>>, <<"uint", UintV(FromInt(7))>>, <<"double", Fin(FALSE, <<3>>, -1)>>, <<"bool", Bool(TRUE)>>, <<"bool", Bool(FALSE)>>,
+ArgVals == { <<"int", I(5)>>, <<"int", I(-1)>>, <<"int", I(0)>>, <<"uint", UintV(FromInt(7))>>, <<"double", Fin(FALSE, <<3>>, -1)>>, <<"bool", Bool(TRUE)>>, <<"bool", Bool(FALSE)>>,
              <<"string", S(<<104, 105>>)>>, <<"string", S(<<>>)>> }
-NExprs == { X, Bin("==", X, X), Un("!", X), Bin("+", X, X), Call("size", <<X>>), Bin(">", X, Lit(I(0))), CondE(X, Lit(I(1)), Lit(I(2))), Call("type", <<X>>), ListE(<<X, X>>),
+NExprs == { X, Bin("==", X, X), Un("!", X), Bin("+", X, X), Call("size", <<X>>), Bin(">", X, Lit(I(0))), CondE(X, Lit(I(1)), Lit(I(2))), Call("type", <<X>>), ListE(<<X, X>>), ListE(<<ListE(<<Bin("==", X, X), X>>)>>), MapE(<< <<Lit(S(<<107>>)), ListE(<<Bin("==", X, X)>>)>> >>),
             Bin("/", Lit(I(1)), Lit(I(0))), Lit(Bool(TRUE)), Lit(Bool(FALSE)), Lit(Null), Lit(I(42)) }
 Init == mode = "init" /\ expr = Lit(Null) /\ docs = <<>> /\ flagb = FALSE /\ args = <<>> /\ lines = <<>> /\ status = <<0, 0>>
 Next == /\ mode = "init"
